@@ -187,12 +187,18 @@ def lpDiff (comp : String) (v : Verdict) (gen : List CRow × Nat) (obj : List (N
     s!"LpSolveWrapper.solve call_trace results={rec.results} returned_point={gotPoint} retry_codes={AITB.Gen.lpRetryCodes} accept_codes={AITB.Gen.lpAcceptCodes}"
   let v := { v with tag := v.tag ++ (if rec.results.length > 1 then " lp_retry" else "") }
   -- the point lp_solve handed back (all columns): right length, its first columns ARE the returned weights, and it satisfies
-  -- every row of the generated LP (so a wrong answer is attributed: lp_solve's point vs the rows the library built)
+  -- every row lp_solve was given (so a wrong answer is attributed: lp_solve's point vs the rows the library built)
   let v := v.diffIf (gotPoint && rec.point.length != gen.2) s!"LpSolveWrapper.solve point_length={rec.point.length} columns={gen.2}"
   let v := v.diffIf (gotPoint && rec.point.take w.length != w) s!"LpSolveWrapper.solve returned_vector_is_not_the_leading_columns_of_the_point"
   let ptol := (1 / 10^6) * (1 + maxAbs rec.point)
-  let v := match (if gotPoint && rec.point.length == gen.2 then gen.1.zipIdx.find? (fun (r, _) => !r.satB ptol (fun c => rec.point.getD c 0)) else none) with
-    | some (r, i) => v.failIf true s!"LpSolveWrapper accepted_point_violates_row row={i} lhs={ratStr (lhs (fun c => rec.point.getD c 0) r.ent)} rhs={ratStr r.rhs} results={rec.results}"
+  -- against the rows lp_solve actually RECEIVED (so the verdict is about lp_solve / the wrapper); recorded = generated is the row diff below,
+  -- and with no diff `accepted_point_certifies_bellman` applies to this point
+  let lhsOf := fun (ent : List (Nat × Rat)) => ent.foldl (fun acc e => acc + e.2 * rec.point.getD e.1 0) 0
+  let rowBad := fun (r : List (Nat × Rat) × Nat × Rat) =>
+    let l := lhsOf r.1
+    if r.2.1 == 1 then decide (l > r.2.2 + ptol) else if r.2.1 == 2 then decide (l < r.2.2 - ptol) else decide (absQ (l - r.2.2) > ptol)
+  let v := match (if gotPoint && (rec.point.length : Int) == rec.ncols then rec.rows.zipIdx.find? (fun (r, _) => rowBad r) else none) with
+    | some (r, i) => v.failIf true s!"LpSolveWrapper accepted_point_violates_row row={i} lhs={ratStr (lhsOf r.1)} rel={r.2.1} rhs={ratStr r.2.2} results={rec.results}"
     | none => v
   let v := v.diffIf (rec.ncols != (gen.2 : Int)) s!"{comp}.lp columns model={gen.2} impl={rec.ncols}"
   let v := v.diffIf (rec.nunb != gen.2) s!"{comp}.lp unbounded_columns model={gen.2} impl={rec.nunb}"
@@ -329,6 +335,13 @@ def mdp : P String := do
     let v := match rows.find? (fun r => !r.satB n (tol7 * scale) w) with
       | some r => v.failIf true s!"LinearProgramming bellman_constraint_violated{sfx} rhs={ratStr r.rhs} lhs={ratStr (r.val n w)}"
       | none => v
+    -- the final columns of the point lp_solve returned dominate the TRUE maximum of R + γ P V_w − V_w over the joint space (`genLoop_spec`
+    -- soundness: the rows force Σ finals ≥ that expression at every joint (s, a)); a smaller sum means some joint assignment is covered by
+    -- no chain of constraints — the failure mode the property's `why_tests_cant` names — even when the weights happen to be feasible
+    let finalsSum := stGen.finals.foldl (fun acc col => acc + rec.point.getD col 0) 0
+    let worst := rows.foldl (fun m r => let d := r.rhs - r.val n w; if m < d then d else m) (-(10^30 : Rat))
+    let v := v.failIf (rec.point.length == gen.2 && !rows.isEmpty && decide (worst > finalsSum + (1 / 10^6) * (1 + maxAbs rec.point)))
+      s!"LinearProgramming lp_finals_below_true_max finals_sum={ratStr finalsSum} true_max={ratStr worst}"
     let objW := dotN n c w
     let v := v.failIf (decide (objW > opt + tol7 * (1 + absQ opt))) s!"LinearProgramming objective_not_minimal{sfx} objective={ratStr objW} flat_optimum={ratStr opt}"
     -- model of the tail of operator() (g *= γ·v; plusEqual(g, R)) on the library's own weights vs the returned Q, basis by basis
